@@ -19,6 +19,11 @@ CLAIMS = {
         "note": "Decided here: the state machine every Encoder.WriteToken/WriteValue call consults first, and the delimiter choice. Not decided by proof unless listed in the evidence: the commit protocol of encoderState.WriteToken/AppendRaw/WriteValue around it (buffer truncation on error), reformatValue/Object/Array, objectNamespace.insert.",
         "ref": "DESIGN.md §3 C06",
     },
+    "C07": {
+        "text": "Proof of the flush conservation law on the real encoderState.Flush, for every buffer content, every short-write size 0 <= n <= len(Buf) and every error outcome of the writer: the bytes accepted by the writer followed by the bytes left in Buf equal the old Buf followed by the optional top-level newline (count: baseOffset' + len(Buf') = baseOffset + len(Buf) + nl; content: Buf'[k] is the old byte at k+n, or the newline), the offset advances by exactly n, a nil result leaves Buf empty, a skipped flush (no writer, or avoidFlush) changes nothing, and the name stack holds no reference into the buffer afterwards (copyQuotedBuffer). avoidFlush equals its specification (never flush while the innermost container could still become empty or its last member could still be retracted: count 0, value pending, or buffer ending in ll / \"\" / {} / [] at a name position); NeedFlush equals its threshold rule; TrimSuffixWhitespace/Byte/String and HasSuffixByte remove exactly the stated suffix.",
+        "note": "Assumed: the io.Writer interface contract (0 <= n <= len(p), short write implies error, p not modified) and the bytes.Buffer methods used by the specialised path. Not decided by proof: UnwriteEmptyObjectMember/UnwriteOnlyObjectMemberName and the global lemma that no flush happens between a member name and the end of a value that turns out empty (struct arshaler, reflection), MarshalWrite's prefix clause, pooled encoder reuse (pools.go).",
+        "ref": "DESIGN.md §3 C07",
+    },
     "C08": {
         "text": "Proof of the detection primitives: ConsumeString/ConsumeStringResumable with validateUTF8 report an error iff the body contains an ill-formed UTF-8 sequence or an unpaired surrogate escape (utf8-iff obligations against the Unicode Table 3-7 spec); AppendQuote returns ErrInvalidUTF8 iff the input is ill-formed and AllowInvalidUTF8 is unset and otherwise replaces each ill-formed byte by exactly one U+FFFD; the namespace bits of stateEntry (DisableNamespace, invalidateNamespace, isActiveNamespace, isValidNamespace, Increment, decrement) do not interfere with each other, the type bit or the count; the state machine refuses every token once a namespace is invalid; and, where listed in the evidence, uintSet.insert (struct-field duplicate detection).",
         "note": "Not decided by proof: objectNamespace.insert/removeLast (hash-map based), that each target type re-implements duplicate detection after DisableNamespace (reflection), later-member-wins semantics under AllowDuplicateNames.",
